@@ -14,15 +14,46 @@ class AnchorError(Exception):
 _GEN = re.compile(r"::<[^<>]*(?:<[^<>]*(?:<[^<>]*>[^<>]*)*>[^<>]*)*>")
 
 
+_SG_CACHE = {}
+
+
 def strip_generics(name):
-    """`std::vec::Vec::<T>::push` -> `std::vec::Vec::push` (also nested)."""
+    """`std::vec::Vec::<T>::push` -> `std::vec::Vec::push`; `VecDeque<T, A>::len` -> `VecDeque::len`;
+    qualified-self forms `<T as Trait>::m` are kept."""
     if name is None:
         return None
-    prev = None
-    while prev != name:
-        prev = name
-        name = _GEN.sub("", name)
-    return name
+    r = _SG_CACHE.get(name)
+    if r is not None:
+        return r
+    out = []
+    i = 0
+    n = len(name)
+    while i < n:
+        c = name[i]
+        if c == "<":
+            prev = name[i - 1] if i > 0 else ""
+            is_generic = prev.isalnum() or prev == "_" or (i >= 2 and name[i - 2:i] == "::")
+            if is_generic:
+                depth = 0
+                j = i
+                while j < n:
+                    if name[j] == "<":
+                        depth += 1
+                    elif name[j] == ">" and name[j - 1] != "-":
+                        depth -= 1
+                        if depth == 0:
+                            break
+                    j += 1
+                if out[-2:] == [":", ":"]:
+                    out = out[:-2]
+                i = j + 1
+                continue
+        out.append(c)
+        i += 1
+    r = "".join(out)
+    if len(_SG_CACHE) < 200000:
+        _SG_CACHE[name] = r
+    return r
 
 
 def short_ty(ty):
